@@ -3,11 +3,13 @@ package c13
 import (
 	"bytes"
 	"fmt"
+	"sort"
 	"strings"
 
 	"github.com/ethereum/go-ethereum/rlp"
 
 	"github.com/zenon-network/go-zenon/chain/nom"
+	"github.com/zenon-network/go-zenon/chain/store"
 	"github.com/zenon-network/go-zenon/common/types"
 
 	"verifmc/internal/ops"
@@ -86,6 +88,13 @@ func rootGroup(class string, v variant) string {
 		return "descendant-" + f
 	}
 	return f
+}
+
+func effectGroup(class string, v variant) string {
+	if class == "contract-receive" && strings.HasPrefix(v.Target, "d") {
+		return "descendant-recipient-amount-or-token"
+	}
+	return rootGroup(class, v)
 }
 
 // keyGroup is the field name used in violation keys. A received contract-receive block is pinned down by one
@@ -215,6 +224,10 @@ func exploreBlock(c *xs.Ctx, r *xs.Result, hi int, rec *prodRec, k *pooled, only
 			}
 			r.Add("refusal_reasons", reason)
 			r.Add("outcomes", class+":"+rootGroup(class, v)+"/"+v.Flavor+":refused")
+			if strings.Contains(reason, "VM panic") {
+				r.Add("vm_panic_variants", class+":"+rootGroup(class, v)+"/"+v.Flavor)
+			}
+			callData(r, k.Block, V, v, "refused("+reason+")")
 			continue
 		}
 		// accepted: something entered the pool
@@ -231,6 +244,7 @@ func exploreBlock(c *xs.Ctx, r *xs.Result, hi int, rec *prodRec, k *pooled, only
 				}
 			}
 			r.Count("other_blocks_accepted", 1)
+			callData(r, k.Block, V, v, "accepted-as-other-block")
 			fresh()
 			continue
 		}
@@ -269,6 +283,7 @@ func exploreBlock(c *xs.Ctx, r *xs.Result, hi int, rec *prodRec, k *pooled, only
 			}
 		}
 		if identical && outcome == "" {
+			callData(r, k.Block, V, v, "accepted-and-stored-as-the-canonical-bytes")
 			r.Count("variants_accepted_normalised", 1)
 			r.Add("outcomes", class+":"+rootGroup(class, v)+"/"+v.Flavor+":accepted-normalised-identical")
 		} else {
@@ -287,9 +302,9 @@ func exploreBlock(c *xs.Ctx, r *xs.Result, hi int, rec *prodRec, k *pooled, only
 					escNote = "\nescalation: " + ew
 				}
 				if strings.Contains(eo, "balances-differ") {
-					outcome += "+producer-confirms-variant:balances-differ"
-				} else if strings.Contains(eo, "receivable-sends-differ") {
-					outcome += "+producer-confirms-variant:receivable-sends-differ"
+					// the same root cause observed through its effect on the ledger: one more key, for the effect
+					r.Violate("C13:"+class+":"+effectGroup(class, v)+"-altered:variant-confirmed-by-producer:fresh-node-accepts:balances-differ",
+						where+": "+ew, rep)
 				}
 			}
 			what := where + escNote + fmt.Sprintf(": the follower accepted a second form of block %v (stored bytes equal the producer's: %v); then InsertChain of the producer's momentums %d..%d: idx=%d err=%v panic=%v; outcome %s",
@@ -347,10 +362,7 @@ func logicalView(n *vnode.Node) string {
 	var sb strings.Builder
 	st := n.Chain.GetFrontierMomentumStore()
 	for i, u := range ops.Users {
-		acc := st.GetAccountStore(u.Address)
-		z, _ := acc.GetBalance(types.ZnnTokenStandard)
-		q, _ := acc.GetBalance(types.QsrTokenStandard)
-		fmt.Fprintf(&sb, "u%d znn=%v qsr=%v pending[", i, z, q)
+		fmt.Fprintf(&sb, "u%d %s pending[", i, balances(st.GetAccountStore(u.Address)))
 		hashes, _ := st.GetAccountMailbox(u.Address).GetUnreceivedAccountBlockHashes(64)
 		for _, h := range hashes {
 			b, _ := st.GetAccountBlockByHash(h)
@@ -363,6 +375,18 @@ func logicalView(n *vnode.Node) string {
 		sb.WriteString("]\n")
 	}
 	return sb.String()
+}
+
+func balances(acc store.Account) string {
+	m, _ := acc.GetBalanceMap()
+	var l []string
+	for z, v := range m {
+		if v.Sign() != 0 {
+			l = append(l, fmt.Sprintf("%s=%v", z.String()[3:9], v))
+		}
+	}
+	sort.Strings(l)
+	return strings.Join(l, ",")
 }
 
 // drain lets every account receive everything it can, confirms, and returns the balances afterwards.
@@ -385,10 +409,7 @@ func drain(n *vnode.Node) string {
 	var sb strings.Builder
 	st := n.Chain.GetFrontierMomentumStore()
 	for i, u := range ops.Users {
-		acc := st.GetAccountStore(u.Address)
-		z, _ := acc.GetBalance(types.ZnnTokenStandard)
-		q, _ := acc.GetBalance(types.QsrTokenStandard)
-		fmt.Fprintf(&sb, "u%d=%v/%v ", i, z, q)
+		fmt.Fprintf(&sb, "u%d %s\n", i, balances(st.GetAccountStore(u.Address)))
 	}
 	return sb.String()
 }
@@ -463,7 +484,7 @@ func escalate(c *xs.Ctx, rec *prodRec, k *pooled, V *nom.AccountBlock) (outcome 
 		dq, dr := drain(q), drain(ref)
 		if dq != dr {
 			outcome += ":balances-differ-after-receiving"
-			what += "\nafter every account received what it could: honest " + firstDiff(dr, dq)
+			what += "\nbalances after every account received what it could:\n" + firstDiff(dr, dq)
 		}
 	} else if bytesDiffer {
 		outcome += ":bytes-differ-only"
@@ -473,9 +494,6 @@ func escalate(c *xs.Ctx, rec *prodRec, k *pooled, V *nom.AccountBlock) (outcome 
 
 func firstDiff(a, b string) string {
 	la, lb := strings.Split(a, "\n"), strings.Split(b, "\n")
-	if len(la) == 1 {
-		la, lb = strings.Split(a, " "), strings.Split(b, " ")
-	}
 	var out []string
 	for i := range la {
 		if i < len(lb) && la[i] != lb[i] {
@@ -486,4 +504,22 @@ func firstDiff(a, b string) string {
 		out = out[:4]
 	}
 	return strings.Join(out, "\n")
+}
+
+// callData records, per contract method, what happened to each non-canonical encoding.
+func callData(r *xs.Result, orig, V *nom.AccountBlock, v variant, outcome string) {
+	if !strings.HasPrefix(v.Field, "Data-abi-") {
+		return
+	}
+	name, _, _ := decodeArgs(orig.ToAddress, orig.Data)
+	who := "relay(hash+signature kept)"
+	if v.Flavor == "resign" {
+		who = "key-holder(hashed+signed over these bytes)"
+	}
+	r.Count("call_data_variants", 1)
+	if strings.HasPrefix(v.Field, "Data-abi-same-args") {
+		r.Count("call_data_same_args_variants", 1)
+	}
+	r.Add("call_data_forms", name+":"+strings.TrimSuffix(strings.TrimPrefix(v.Name, "Data:abi:"), "/resign"))
+	r.Add("call_data", fmt.Sprintf("%s:%s:%s => %s", name, strings.TrimPrefix(v.Field, "Data-abi-"), who, outcome))
 }
